@@ -326,7 +326,10 @@ def stream_search(scratch, depth):
     ra_c.isoform_matches = [default_match(IA), IA.IsoformMatch(IA.MatchClassification.incomplete_splice_match, "G1", "T2",
                                                                IA.MatchEvent(IA.MatchEventSubtype.ism_left), "+", 0)]
     ra_c.assignment_type = IA.ReadAssignmentType.ambiguous
-    alphabet = {"g1": gi_real, "g2": gi_two, "gr": gi_region, "a": ra_a, "b": ra_b, "c": ra_c}
+    ra_d = default_ra(IA, PolyAInfo)      # a valid assignment without any isoform match (noninformative)
+    ra_d.read_id, ra_d.assignment_type, ra_d.gene_assignment_type, ra_d.isoform_matches = "read4", IA.ReadAssignmentType.noninformative, \
+        IA.ReadAssignmentType.noninformative, []
+    alphabet = {"g1": gi_real, "g2": gi_two, "gr": gi_region, "a": ra_a, "b": ra_b, "c": ra_c, "d": ra_d}
     states = 0
     transitions = 0
     executions = 0
